@@ -565,20 +565,29 @@ pub fn exec_symplant(seed: u64) -> Vec<Case> {
         };
         let outer = if rng.chance(1, 2) { 14 } else { 4 };
         let t0 = bin(outer, u.clone(), sib.clone());
-        // the symmetry of the child: a random non-identity permutation
-        let mut perm: Vec<usize> = (0..n).collect();
-        while perm == (0..n).collect::<Vec<_>>() {
+        // the symmetries of the child: one or two random non-identity permutations (two of them can generate a group
+        // that is larger than the identity plus its generators, e.g. all of S3)
+        let id: Vec<usize> = (0..n).collect();
+        let ngen = if n == 3 && rng.chance(1, 2) { 2 } else { 1 };
+        let mut perms: Vec<Vec<usize>> = Vec::new();
+        while perms.len() < ngen {
+            let mut perm = id.clone();
             rng.shuffle(&mut perm);
+            if perm != id && !perms.contains(&perm) {
+                perms.push(perm);
+            }
         }
-        let u_perm = leaf(cv, &perm.iter().map(|&i| slots[i]).collect::<Vec<_>>());
         let mut eg: EGraph<Main> = EGraph::default();
         let root = eg.add_expr(to_recexpr::<Main>(&t0));
         let a = eg.add_expr(to_recexpr::<Main>(&u));
-        let b2 = eg.add_expr(to_recexpr::<Main>(&u_perm));
-        if rng.chance(1, 2) {
-            eg.union(&a, &b2);
-        } else {
-            eg.union(&b2, &a);
+        for perm in &perms {
+            let u_perm = leaf(cv, &perm.iter().map(|&i| slots[i]).collect::<Vec<_>>());
+            let b2 = eg.add_expr(to_recexpr::<Main>(&u_perm));
+            if rng.chance(1, 2) {
+                eg.union(&a, &b2);
+            } else {
+                eg.union(&b2, &a);
+            }
         }
         if eg.ids().iter().any(|i| eg.enodes(*i).iter().any(|nd| nd.slots().len() > eg.slots(*i).len())) {
             return None;
@@ -593,10 +602,20 @@ pub fn exec_symplant(seed: u64) -> Vec<Case> {
             tags.push("viol:apply-rewrites-panics".into());
             tags.push(format!("panic:{}", e.replace(',', " ")));
         }
-        // every element of the group generated by the permutation gives an instance
-        let mut cur: Vec<usize> = (0..n).collect();
+        // every element of the group generated by the permutations gives an instance
+        let mut group: Vec<Vec<usize>> = vec![id.clone()];
+        let mut k = 0;
+        while k < group.len() {
+            for perm in &perms {
+                let next: Vec<usize> = group[k].iter().map(|&i| perm[i]).collect();
+                if !group.contains(&next) {
+                    group.push(next);
+                }
+            }
+            k += 1;
+        }
         let mut expected = 0;
-        loop {
+        for cur in &group {
             let inst = bin(outer, leaf(gv, &cur.iter().map(|&i| slots[i]).collect::<Vec<_>>()), sib.clone());
             expected += 1;
             match guarded(|| lookup_rec_expr(&to_recexpr::<Main>(&inst), &eg)) {
@@ -607,11 +626,8 @@ pub fn exec_symplant(seed: u64) -> Vec<Case> {
                 }
                 _ => tags.push("viol:symmetric-instance-did-not-fire".into()),
             }
-            cur = cur.iter().map(|&i| perm[i]).collect();
-            if cur == (0..n).collect::<Vec<_>>() {
-                break;
-            }
         }
+        tags.push(format!("t:group{}", group.len()));
         tags.sort();
         tags.dedup();
         tags.push(format!("rule:{} => {}", apat_to_text(&lhs).replace(',', "~"), apat_to_text(&rhs).replace(',', "~")));
